@@ -56,6 +56,19 @@ func TestSweep(t *testing.T) {
 			}
 		}
 	}
+	// long buffers (more than 65536 samples) read by many goroutines at once, mostly as conversion sources
+	long := []string{"float64", "float32", "int16"}
+	if env.Thorough() {
+		long = Types
+	}
+	for _, tn := range long {
+		c := &Case{T: tn, C: 2, F: 33001, RO: 33001, Bounds: []int{33001}, Procs: 16, Repeat: env.Pick(1, 3)}
+		for r := 0; r < env.Pick(6, 8); r++ {
+			c.Readers = append(c.Readers, []int{7, 7, 3, 7})
+			c.Yield = append(c.Yield, r)
+		}
+		Oracle.One(t, env, rec, "sweep", c)
+	}
 	rec.Exhaustive("grid: 6 types x (readers,writers) in {(2,2),(8,8),(16,0),(0,16),(3,5)} x GOMAXPROCS in {1,2,16}, every read-only and writing entry point in every script; schedules are sampled, not enumerated", false)
 }
 
